@@ -374,8 +374,17 @@ static void scn_fileset(const Scn &s, Result &r, const std::string &dir) {
   }
   if (missing) lines += "not-there.mtbl\n";
   if (nontable) {
+    // things a setfile can name that are not tables: garbage, a zero-length file (a table still being copied in), a directory
     write_file(sub + "/junk.mtbl", std::string(900, 'j'));
     lines += "junk.mtbl\n";
+    if (nt % 2 == 0) {
+      write_file(sub + "/empty.mtbl", std::string());
+      lines += "empty.mtbl\n";
+    }
+    if (nt % 3 == 0) {
+      mkdir((sub + "/adir.mtbl").c_str(), 0700);
+      lines += "adir.mtbl\n";
+    }
     r.tag("call_reported_failure");
   }
   write_file(setfile, lines);
